@@ -457,17 +457,24 @@ class Cluster:
         self.emits[tok] = info
         if times == 2:
             self.ctx.count('identical_emits_repeated')
+        # payloads are whatever the application passes to emit(): some of
+        # them pickle by reference to a class (enum members, ordered dicts,
+        # str subclasses)
+        data = {'t': tok}
+        if rng.random() < 0.25:
+            data = PM.rich_payload(tok)
+            self.ctx.count('emits_with_class_valued_payload')
         try:
             for _ in range(times):
                 if via == self.nh:
                     kw = dict(namespace=ns, room=to, skip_sid=skip)
                     if self.kind == 'async':
                         self.hosts[0].d.run(self.wo.emit(
-                            'tok%d' % tok, {'t': tok}, **kw))
+                            'tok%d' % tok, data, **kw))
                     else:
-                        self.wo.emit('tok%d' % tok, {'t': tok}, **kw)
+                        self.wo.emit('tok%d' % tok, data, **kw)
                 else:
-                    self.hstep(via, ['emit', tok, to, skip, ns, cb])
+                    self.hstep(via, ['emit', tok, to, skip, ns, cb, data])
         except Exception as e:
             return self.fail('emit via %s raised %r' % (via, e))
         self.collect()
@@ -759,6 +766,7 @@ def run(ctx):
     ctx.require('remote_callbacks_checked', 3)
     ctx.require('emits_via_write_only', 10)
     ctx.require('identical_emits_repeated', 10)
+    ctx.require('emits_with_class_valued_payload', 10)
     # fresh hosts whose first connections arrive together (threaded server)
     from checks import c07_init
     ctx.require('fresh_host_cases', 3)
